@@ -740,6 +740,11 @@ func (e *Exec) sliceBacking(st *State, s *SliceVal) *ArrayVal {
 		return nil
 	}
 	v := e.navigate(st, e.root(st, s.Obj), s.Path)
+	if lz, ok := v.(*LazyVal); ok {
+		nv := e.symVal(st, lz.T, lz.Name, 0)
+		st.Heap[s.Obj] = e.update(st, e.root(st, s.Obj), s.Path, func(Val) Val { return nv })
+		v = nv
+	}
 	av, ok := v.(*ArrayVal)
 	if !ok {
 		e.bail("slice backing is %T", v)
